@@ -701,7 +701,9 @@ class ExprMixin(Core):
                                   lambda a, seq=seq, kind=kind: self.seq_slice_obj(seq, kind, idx, a, txt),
                                   lambda b, seq=seq, kind=kind: self.seq_subscript(seq, kind, idx, b, txt)))
         s2 = st.fork(U.is_("VDict", t))
-        if self.feasible(s2):
+        if self.feasible(s2) and isinstance(idx, T) and idx.kind in ("int", "bool", "real"):
+            out.extend(self.raise_(s2, "KeyError"))  # documents have string keys only (A1)
+        elif self.feasible(s2):
             self.oblige(s2, "safety:dictkey", self.is_kind(idx, ["VStr"]), txt)
             di = self.dict_index(t, self.str_term(idx))
             out.extend(self.split(s2, di >= 0, lambda a: self.ok(T("V", U.acc("vals", t)[di]), a), lambda b: self.raise_(b, "KeyError")))
